@@ -133,6 +133,7 @@ EnumOutcome(it) ==
             ELSE IF Has(V, "skip") THEN "Accept"                            \* the fields are never looked at
             ELSE LET ra  == Has(V, "rename_all") \/ (IsNamedShape(it.vshape) /\ Has(E, "rename_all_fields"))
                      tag == IsNamedShape(it.vshape) /\ Has(E, "tag") /\ ~Has(E, "content") /\ ~Has(E, "untagged")
+                            /\ ~Has(V, "untagged")      \* an untagged variant does not carry the enum's tag
                      body == BodyOutcome(it.vshape, ra, tag, it.f, it.fty)
                  IN \* the variant's own definition is validated even when `as`/`type` replace it, but then
                     \* its text (with the compile-time Option check) is not used
@@ -191,7 +192,8 @@ C16_Compiles(it, real, compiled) ==
 (***************************************************************************)
 CONSTANT DropWholeList
 
-AllKeys == {"rename", "rename_all", "rename_all_fields", "tag", "content", "untagged", "skip", "flatten", "inline", "optional", "as", "type"}
+AllKeys == {"rename", "rename_all", "rename_all_fields", "tag", "content", "untagged", "skip", "flatten", "inline", "optional", "as", "type",
+            "export", "optional_fields"}
 NoAttrs == [k \in AllKeys |-> "none"]
 
 \* `a.merge(b)`: Option::or / || - what is set first wins
@@ -224,7 +226,18 @@ EffAttrs(pos, lists) ==
   IF ~SerdeCompat \/ (pos \in {"field", "variant"} /\ ts["skip"] # "none") THEN ts
   ELSE MergeEff(ts, FoldLists(NoAttrs, lists, "serde"))
 
+\* the keys that are set, and whether assert_validity of the position accepts them (carrier shapes: named)
+KeysSet(e) == { k \in AllKeys : e[k] # "none" }
+PosInvalid(pos, K) ==
+  CASE pos = "struct"  -> StructInvalid(K, "named")
+    [] pos = "enum"    -> EnumInvalid(K)
+    [] pos = "variant" -> VariantInvalid(K, "named")
+    [] pos = "field"   -> FieldInvalid(K, TRUE)
+
 \* the four statements of C10, on two attribute-list sequences A and B of one position
-C10_Same(pos, A, B) == EffAttrs(pos, A) = EffAttrs(pos, B)
+\* (a skipped field / variant is not bound at all: whatever else is set on it makes no difference)
+C10_Same(pos, A, B) ==
+  LET a == EffAttrs(pos, A) b == EffAttrs(pos, B) IN
+  a = b \/ (pos \in {"field", "variant"} /\ a["skip"] # "none" /\ b["skip"] # "none")
 
 =============================================================================
